@@ -3,7 +3,7 @@ NOT_BUILT_REASON = {}
 META = {
  "C17": dict(
   design_ref="DESIGN.md §5 C17",
-  technique="exhaustive token enumeration + exhaustive single-byte substitution/insertion (256 values x every position) + rapid differential vs strconv/encoding/hex/math/big + native go fuzz (thorough)",
+  technique="exhaustive token enumeration + exhaustive single-byte substitution/insertion (256 values x every position) + rapid differential vs strconv/encoding/hex/math/big + native go fuzz (thorough); rapid model-based aliasing unit over several reused destinations and one reused message buffer",
   text="Exhaustive over all 299 593 JSON tokens of length 0..6 on a hostile alphabet for no-panic/accept/reject, and generated search (tens of thousands to millions of cases) for value exactness of quantities in every spelling, byte strings up to 8 KiB decoded into reused destinations, and big-endian round trips for every pad width; absence beyond the explored inputs is not established.",
   note="Reference codecs are Go's strconv, encoding/hex and math/big. 'Valid quantity' = 0x + 1..16 hex digits (longer spellings that still fit in 64 bits must be exact or rejected).",
  ),
